@@ -8,6 +8,7 @@ package main
 // evaluated on the observed states (independent of the model).
 
 import (
+	"bytes"
 	"crypto/sha256"
 	"encoding/hex"
 	"encoding/json"
@@ -888,6 +889,8 @@ func runC07(r *RunCtx) error {
 		}
 		pool = append(pool, m)
 	}
+	// roots of accepted but unusual shape (the message validation puts no condition on the merkle): absent, one byte, long
+	pool = append(pool, c07Merkle{Root: []byte{}, Item: []byte("x")}, c07Merkle{Root: []byte{1}, Item: []byte("x")}, c07Merkle{Root: bytes.Repeat([]byte{0xab}, 200), Item: []byte("x")})
 	nh := r.Scale(7, 70)
 	steps := r.Scale(45, 90)
 	for k := 0; k < nh; k++ {
